@@ -294,7 +294,7 @@ def run(ctx, p):
                           detail=dict(detail, calls=calls, why="callback registered in both roles, withdrawn from one"))
             if kind == "zone":
                 ctx.check("ac_general" in names and "ac_state" not in names and "other_ac" not in names
-                          and all(c[1] == (tz if c[0] in ("zone", "raiser") else ta) for c in calls if not c[0].startswith("dual")),
+                          and all(c[1] == (tz if c[0] in ("zone", "raiser", "bound") else ta) for c in calls if not c[0].startswith("dual")),
                           "zone_reaches_ac_general_only", detail=dict(detail, calls=calls))
             if with_raiser:
                 ctx.check("raiser" in names and (names.count(main) >= 1 or not expect_probe), "raiser_does_not_starve", detail=dict(detail, calls=calls))
